@@ -79,11 +79,22 @@ var propScenario = map[string][]scenario{
 	"C07": {{"c04_bucket_program_test.go", ".", "Bucket.DeleteBucket/free (regression scenario of D4)"}, modelPrograms},
 	"C08": {{"c08_failed_sync_test.go", ".", "Tx.Commit / Tx.rollback after a failed final fdatasync (known finding D3)"}},
 	"C10": {modelPrograms},
+	"C11": {{"c11_meta_damage_test.go", ".", "DB.mmap validation tail, Open error paths, page-size probes at every supported page size (bounded: 6 page sizes x 3 damage variants x 2 meta pages)"}},
+	"C12": {{"c12_freelist_page_test.go", "internal/freelist", "shared.Write/Read, Page.FreelistPageCount/FreelistPageIds (unsafe views): bytes against an independent v2 encoder, 8 list sizes incl. the 0xFFFF convention, both back ends"}},
+	"C13": {modelPrograms},
 	"C14": {modelPrograms},
 	"C15": {modelPrograms},
 	"C18": {{"c18_maxsize_test.go", ".", "DB.mmap tail, Tx.Commit growth path"}},
 	"C19": {{"c19_check_corrupt_test.go", ".", "Tx.check / recursivelyCheckPages traversal"}},
+	"C20": {modelPrograms},
 }
+
+// propAsserts: which assertion groups of the model-program stand-in belong to a property (BBVC_PROP)
+var propAsserts = map[string]string{
+	"C13": "C13,C04,C07", // content and accounting must not depend on freelist type / NoFreelistSync / reopen path
+	"C20": "C20,C04,C07", // the free-list scan (DB.freepages) is exercised by the NoFreelistSync programs and reopen
+}
+
 
 var propReplay = map[string]replayTemplate{}
 
@@ -118,7 +129,7 @@ func runOverlayTest(src, pkgDir string, extraEnv ...string) (string, bool) {
 	data, _ := json.Marshal(ov)
 	ovFile := filepath.Join(dir, "ov.json")
 	os.WriteFile(ovFile, data, 0o644)
-	cmd := exec.Command("go", "test", "-overlay", ovFile, "-vet=off", "-count=1", "-timeout", "900s", "-v", "-run", "^TestZZBbvcReplay", "./"+pkgDir)
+	cmd := exec.Command("go", "test", "-overlay", ovFile, "-vet=off", "-count=1", "-timeout", scenarioTimeout, "-v", "-run", "^TestZZBbvcReplay", "./"+pkgDir)
 	cmd.Dir = repoDir
 	cmd.Env = append(os.Environ(), "GOFLAGS=-mod=mod", "GOPROXY=off", "GOSUMDB=off", "GOTOOLCHAIN=local")
 	cmd.Env = append(cmd.Env, extraEnv...)
@@ -140,11 +151,15 @@ func runOverlayTest(src, pkgDir string, extraEnv ...string) (string, bool) {
 
 // runBounded runs the property's scenario templates as bounded stand-ins on the real code. They are
 // labelled bounded, never counted as discharged. Returns records and the scenarios that failed.
+// scenarioTimeout bounds one scenario run (a hang is reported as a failure of the scenario)
+var scenarioTimeout = "240s"
+
 func runBounded(e *Engine, prop, tier string, seed int, force bool) ([]map[string]interface{}, []map[string]interface{}) {
 	var recs, failed []map[string]interface{}
 	programs, ops := 150, 80
 	if tier == "thorough" {
 		programs, ops = 4000, 120
+		scenarioTimeout = "2400s"
 	}
 	for _, sc := range propScenario[prop] {
 		data, err := os.ReadFile(filepath.Join("/verif/replay_templates", sc.file))
@@ -152,7 +167,11 @@ func runBounded(e *Engine, prop, tier string, seed int, force bool) ([]map[strin
 			continue
 		}
 		t0 := time.Now()
-		out, bad := runOverlayTest(string(data), sc.pkgDir, "BBVC_PROP="+prop, fmt.Sprint("BBVC_PROGRAMS=", programs), fmt.Sprint("BBVC_OPS=", ops), fmt.Sprint("VERIF_SEED=", seed))
+		bp := prop
+		if a, ok := propAsserts[prop]; ok {
+			bp = a
+		}
+		out, bad := runOverlayTest(string(data), sc.pkgDir, "BBVC_PROP="+bp, fmt.Sprint("BBVC_PROGRAMS=", programs), fmt.Sprint("BBVC_OPS=", ops), fmt.Sprint("VERIF_SEED=", seed))
 		bound := "the fixed scenarios / small-scope enumeration described in the template"
 		if sc.file == modelPrograms.file {
 			bound = fmt.Sprintf("%d seeded random API programs x %d operations (seed %d), page size 4096, <=3 concurrent readers, both freelist back ends", programs, ops, seed)
